@@ -28,6 +28,9 @@ CLAIMED = {
  "C16": ("write-effect analysis of every scalar decoder, finite-outcome evaluation of the canonical and SetBigInt decisions (W1, D4)",
          "Static decision, for all byte strings, that no decoder writes the slice it is given (found and fixed DEF-2), that the canonical decoder accepts exactly Cmp(value,r) = -1 on the integer built from the input, and that SetBigInt's zero/direct shortcuts are taken only where they agree with reduction (all 9 outcomes). Mod/Montgomery arithmetic and byte-order tables (K4, pending) not decided here.",
          "4 C16, 3.1, 3.3 D4"),
+ "C15": ("constant derivation with math/big from the modulus string, limb-alignment and carry-chain shape rules over the typed AST, write-effect analysis (K1, K2, W1; Z1/W5/asm rules added as built)",
+         "Static decision that every modulus-derived constant in package fr (limbs of q, R, R^2, (q-1)/2+1, -q^-1, exponents, the Sqrt generator) equals the value computed from the decimal modulus in the role its context implies, that limb k meets limb k with the same operands in the same order in every carry chain, comparison cascade and Montgomery round, and that operands are never written. These are necessary conditions; the numeric correctness of CIOS, inversion, Tonelli-Shanks and of the assembly is not decided.",
+         "4 C15, 3.5"),
 }
 NA_REASON = "check under construction (DESIGN.md 9.5 build order); no verdict claimed yet"
 
